@@ -48,7 +48,7 @@ def exec_number(rec):
             ev, err = guarded(call, 60)
         if err:
             ev = DC.number_error_event(err)
-        ev['tags'] = {'elem': DC.label(spec)}
+        ev['tags'] = DC.spec_tags(spec, rec['mesh']['kind'])
         events.append(ev)
     return events
 
